@@ -8,6 +8,7 @@ O = "generate_code/optimize_contractions.py"
 D = "derivative.py"
 SP = "spatial_orbitals.py"
 M = "misc.py"
+IM = "intermediates.py"
 
 _NORM_OLD = ("                i1 = pref\n                for o in term:\n                    i1 *= self.overlap(o)\n"
              "                    if i1 is S.Zero:\n                        break\n                norm_factor += i1.expand()")
@@ -289,4 +290,41 @@ WITNESSES = [
          new="        parked = [f\"_tmp_name_{i}_\" for i in range(len(all_subs))]\n"
              "        for (old, _), tmp in zip(all_subs, parked):\n            expr.rename_tensor(current=old, new=tmp)\n"
              "        for (_, configured), tmp in zip(all_subs, parked):\n            expr.rename_tensor(tmp, configured)\n"),
+    # list built from a set and put into canonical order in place (held-out refactoring 2F5)
+    dict(id="c19-ok-sort-in-place", prop="C19", file=IM, expect=None,
+         old="            contracted = tuple(sorted(\n                [s for s in itmd.atoms(Index) if s not in target],\n                key=sort_idx_canonical\n            ))\n        else:\n            contracted = (j, k, b, c)",
+         new="            found = list(itmd.atoms(Index))\n            found = [s for s in found if s not in target]\n            found.sort(key=sort_idx_canonical)\n"
+             "            contracted = tuple(found)\n        else:\n            contracted = (j, k, b, c)"),
+    # ... but read before it is sorted
+    dict(id="c19-sort-too-late", prop="C19", file=IM, expect="R19a",
+         old="            contracted = tuple(sorted(\n                [s for s in itmd.atoms(Index) if s not in target],\n                key=sort_idx_canonical\n            ))\n        else:\n            contracted = (j, k, b, c)",
+         new="            found = [s for s in itmd.atoms(Index) if s not in target]\n            contracted = tuple(found)\n            found.sort(key=sort_idx_canonical)\n"
+             "        else:\n            contracted = (j, k, b, c)"),
+    # the connected positions computed by a nested helper, occurrences collected with setdefault (held-out refactoring 2F2)
+    dict(id="c19-ok-positions-helper", prop="C19", file=O, expect=None,
+         edits=[("            if idx not in idx_occurences:\n                idx_occurences[idx] = []\n            idx_occurences[idx].append(pos)\n",
+                 "            idx_occurences.setdefault(idx, []).append(pos)\n\n    def connected_positions(contracted_indices):\n"
+                 "        return {pos for idx in contracted_indices\n                for pos in idx_occurences[idx]}\n"),
+                ("        positions = {pos for idx in contracted for pos in idx_occurences[idx]}\n", "        positions = connected_positions(contracted)\n"),
+                ("            new_positions = {\n                pos for idx in new_contracted for pos in idx_occurences[idx]\n            }\n",
+                 "            new_positions = connected_positions(new_contracted)\n")]),
+    # the order of a set of positions becomes the key of a group: found by the order-permuting evaluation
+    dict(id="c19-group-key-unsorted", prop="C19", file=O, expect="R19a",
+         old="        key = tuple(sorted(positions))\n        if key in groups:", new="        key = tuple(positions)\n        if key in groups:"),
+    # only the first default amplitude name found is renamed
+    dict(id="c19-rename-first-only", prop="C19", file=T, expect=["R19a", "R19j"],
+         old="                    subs.append((sym.name, new + split_name[1]))\n            elif field.name == \"gs_density\":",
+         new="                    subs.append((sym.name, new + split_name[1]))\n                    break\n            elif field.name == \"gs_density\":"),
+    # the ordered read of the symbol set moves into a module-level helper (the discharge follows the code)
+    dict(id="c19-ok-rename-helper", prop="C19", file=T, expect=None,
+         edits=[("            if field.name == \"gs_amplitude\":  # special case for t_amplitudes\n                subs = []\n"
+                 "                for sym in expr.sympy.atoms(Symbol):\n                    split_name = _split_default_t_amplitude(sym.name)\n"
+                 "                    if split_name is None:\n                        continue\n"
+                 "                    subs.append((sym.name, new + split_name[1]))\n",
+                 "            if field.name == \"gs_amplitude\":  # special case for t_amplitudes\n"
+                 "                subs = _prefixed_renames(expr, new, _split_default_t_amplitude)\n"),
+                ("# init the TensorNames instance and overwrite the defaults with",
+                 "def _prefixed_renames(expression, configured, splitter):\n    pairs = []\n    for symbol in expression.sympy.atoms(Symbol):\n"
+                 "        parts = splitter(symbol.name)\n        if parts is not None:\n            pairs.append((symbol.name, configured + parts[1]))\n"
+                 "    return pairs\n\n\n# init the TensorNames instance and overwrite the defaults with")]),
 ]
